@@ -1,19 +1,49 @@
 (* C17 — Resource descriptions built from triples flatten back to the same graph. *)
-From RK Require Import Base Descr DescrProofs.
+From RK Require Import Base Descr DescrProofs DescrInline DescrDataset.
 From Coq Require Import Permutation.
 
 (* The full statement for every graph, pinned set and option combination: flattening the export
    (with the anonymised blank nodes put back) is a permutation of the input triples — nothing dropped,
    nothing duplicated —, every anonymised blank node is anonymised exactly once (so the fresh nodes the
    real flattening draws realise an injective renaming: no merge, no split), and the recursion never
-   exceeds the model's fuel.  PROVED so far: the Inline=false half below (C17_export_flatten_noinline)
-   and the lemmas about the nesting test; the Inline=true half is decided by the correspondence run and the
-   end-to-end oracle only (see evidence: partial_theorems). *)
+   exceeds the model's fuel (length g + 2 levels: building is bounded by the size of the graph). *)
 Definition C17_export_flatten_iso_statement : Prop :=
   forall g pinned o,
     Permutation (flatten (export g pinned o)) g /\
     NoDup (anon_origins (export g pinned o)) /\
     out_of_fuel (export g pinned o) = false.
+
+Theorem C17_export_flatten_iso : C17_export_flatten_iso_statement.
+Proof. exact export_flatten_iso. Qed.
+Print Assumptions C17_export_flatten_iso.
+
+(* per graph of a dataset (blank nodes shared between graphs, or used as graph names, are pinned):
+   each graph's resources flatten back to exactly that graph's triples *)
+Theorem C17_export_dataset_flatten : forall qs o gn rs,
+  In (gn, rs) (export_dataset qs o) ->
+  Permutation (flatten rs) (graph_of qs gn) /\ NoDup (anon_origins rs) /\ out_of_fuel rs = false.
+Proof. exact export_dataset_flatten. Qed.
+Print Assumptions C17_export_dataset_flatten.
+
+(* the dataset builder hands every quad to exactly one graph's builder *)
+Theorem C17_quads_by_graph : forall qs,
+  Permutation qs (flat_map (fun gn => map (fun t => (t, gn)) (graph_of qs gn)) (gnames_aux qs [])).
+Proof. exact quads_by_graph. Qed.
+Print Assumptions C17_quads_by_graph.
+
+(* a blank node that occurs in two graphs keeps its name in every graph's export (it is pinned: never nested, never
+   anonymous), so the fresh nodes drawn per graph cannot split it *)
+Theorem C17_shared_never_anonymous : forall qs o gn rs t1 g1 t2 g2 b,
+  In (gn, rs) (export_dataset qs o) ->
+  In (t1, g1) qs -> In (t2, g2) qs -> mentions b t1 -> mentions b t2 -> g1 <> g2 ->
+  ~ In b (anon_origins rs).
+Proof. exact shared_never_anonymous. Qed.
+Print Assumptions C17_shared_never_anonymous.
+
+(* a blank node that names a graph is pinned as well *)
+Theorem C17_graph_name_pinned : forall qs t b, In (t, Some (NBlank b)) qs -> memn b (shared_of qs) = true.
+Proof. exact graph_name_pinned. Qed.
+Print Assumptions C17_graph_name_pinned.
 
 (* every triple belongs to exactly one subject's statement list *)
 Theorem C17_graph_by_subject : forall g, Permutation g (flat_map (stmts_of g) (subjects g)).
